@@ -143,7 +143,7 @@ def check(F, rep, tier):
     for k, v in subs.items():
         for o in v:
             if str(o.id).startswith("?"):
-                rep.bad("R18.1", "unrecognised-shape:clap:%s" % o.id, "could not read a clap Arg definition in sub-command %s" % k)
+                rep.undecided("R18.1", "unrecognised-shape:clap:%s" % o.id, "could not read a clap Arg definition in sub-command %s" % k)
     dom = domains(F, rep)
     rep.floor("R18.1", "schema preset names known to Rust", len(dom.get("preset_names", ())), 22)
     rep.extra["clap_options"] = {k: len(v) for k, v in subs.items()}
@@ -151,7 +151,7 @@ def check(F, rep, tier):
         tab = func_table(api, fname)
         if not rep.anchor("R18.1", "python function " + fname, tab): continue
         if not tab["shape_ok"]:
-            rep.bad("R18.4", "unrecognised-shape:" + fname, "zerv.%s: %s" % (fname, "; ".join(tab["why"])), PYFILE); continue
+            rep.undecided("R18.4", "unrecognised-shape:" + fname, "zerv.%s: %s" % (fname, "; ".join(tab["why"])), PYFILE); continue
         kwonly = [k for k in tab["params"] if k not in tab["positional"]]
         rep.floor("R18.1", "keywords of zerv.%s" % fname, len(kwonly), floor)
         # sub-command + positional
@@ -275,11 +275,11 @@ def extend_args_shape(api, rep):
     if not rep.anchor(rule, "python _extend_args", fn): return
     loops = [s for s in fn.body if isinstance(s, ast.For)]
     if len(loops) != 1:
-        rep.bad(rule, "unrecognised-shape:_extend_args", "expected one for-loop over the flag table", PYFILE); return
+        rep.undecided(rule, "unrecognised-shape:_extend_args", "expected one for-loop over the flag table", PYFILE); return
     lp = loops[0]
     tgt = lp.target
     if not (isinstance(tgt, ast.Tuple) and len(tgt.elts) == 2 and all(isinstance(e, ast.Name) for e in tgt.elts)):
-        rep.bad(rule, "unrecognised-shape:_extend_args", "loop target is not (flag, value)", PYFILE); return
+        rep.undecided(rule, "unrecognised-shape:_extend_args", "loop target is not (flag, value)", PYFILE); return
     flag, value = tgt.elts[0].id, tgt.elts[1].id
     argsname = fn.args.args[0].arg
     # 1. first statement: skip None / False
@@ -335,7 +335,7 @@ def run_cmd_shape(api, rep):
     raises = [s for s in ast.walk(fn) if isinstance(s, ast.Raise)]
     runs = [c for c in ast.walk(fn) if isinstance(c, ast.Call) and isinstance(c.func, ast.Attribute) and c.func.attr == "run" and _is_name(c.func.value, "subprocess")]
     if len(runs) != 1:
-        rep.bad(rule, "unrecognised-shape:run", "expected exactly one subprocess.run call", PYFILE); return
+        rep.undecided(rule, "unrecognised-shape:run", "expected exactly one subprocess.run call", PYFILE); return
     run = runs[0]
     resname = None
     for s in fn.body:
